@@ -1,4 +1,5 @@
 """C20 – per-sample components are pure: batch result == stack of single results, repeatable, input intact (E1 differential + E2)."""
+import math
 from itertools import product
 
 PID = "C20"
@@ -188,6 +189,11 @@ def build(kind, nm):
         con = {"total": lambda: KC.TotalPowerConstraint(2.0), "average": lambda: KC.AveragePowerConstraint(0.5), "papr": lambda: KC.PAPRConstraint(2.0),
                "per-antenna": lambda: KC.PerAntennaPowerConstraint(uniform_power=1.5)}[nm]()
         base = [[0.0] * 8, [1e-4 * ((-1) ** i) for i in range(8)], [1e3 * (1 + i) for i in range(8)], [1.0, -2.0, 0.5, 3.0, -1.0, 0.25, 2.0, -0.5], [9.0] + [0.1] * 7]
+        if nm == "papr" and not lay:
+            # members whose own PAPR hugs the limit from both sides (one peak among seven ones): 0.97, 0.985, 0.995, 1.005, 1.02 x limit
+            base = base[:2] + [[math.sqrt(7 * r * 2.0 / (8 - r * 2.0))] + [1.0 if i % 2 else -1.0 for i in range(7)] for r in (0.97, 0.985, 0.995, 1.005, 1.02)]
+        if nm in ("total", "average") and not lay:
+            base = base + [[3e-6 * ((-1) ** i) for i in range(8)], [4e-6] + [0.0] * 7]          # on both sides of the zero-signal threshold (power 1e-10)
         if nm == "per-antenna":
             pool = [torch.tensor(bv, dtype=f32).reshape(2, 4) for bv in base[1:]]       # (antennas, time)
         elif lay in ("2x4", "4x2", "2x2x2"):
